@@ -194,7 +194,9 @@ def run_case(case):
                     r = a.cmd(cmdname, *args, variant=variant, shim={"plan": rules})
                     ev2 = shimlog.parse(r.events)
                     inj = shimlog.injected(ev2)
-                    if not inj:
+                    if not [e for e in inj if e.action != "short"]:
+                        # no error was delivered (a short read alone is not an error: the tool reads on, and where the
+                        # continuation never touched the failing range there is nothing to propagate)
                         res["counters"]["rule_not_fired"] = res["counters"].get("rule_not_fired", 0) + 1
                         continue
                     pts += 1
